@@ -1,5 +1,110 @@
 import ZoektModel.Basic.Proto
+import ZoektModel.C13.Spec
+import ZoektModel.C13.Sharded
 namespace ZoektModel.C13
-/-- stub: no model driver for C13 yet -/
-def main : IO Unit := ZoektModel.Proto.runLines (fun _ => ZoektModel.Proto.badCase "no model driver for C13")
+open ZoektModel ZoektModel.Proto
+
+/-- tree: `path:blob:mode` separated by `,`; `-` = empty -/
+def parseTree (s : String) : Option Tree :=
+  if s == "-" then some [] else
+  (s.splitOn ",").mapM fun e =>
+    match e.splitOn ":" with
+    | [p, x, m] => do pure (← p.toNat?, ⟨← x.toNat?, ← m.toNat?⟩)
+    | _ => none
+
+def parsePairs (s : String) : Option (List (Path × Blob)) :=
+  if s == "-" then some [] else
+  (s.splitOn ",").mapM fun e =>
+    match e.splitOn ":" with
+    | [p, x] => do pure (← p.toNat?, ← x.toNat?)
+    | _ => none
+
+def insertSorted (lt : α → α → Bool) (a : α) : List α → List α
+  | [] => [a]
+  | b :: r => if lt a b then a :: b :: r else b :: insertSorted lt a r
+
+def sortBy (lt : α → α → Bool) (l : List α) : List α := l.foldr (insertSorted lt) []
+
+def dedupSorted [BEq α] : List α → List α
+  | [] => []
+  | [a] => [a]
+  | a :: b :: r => if a == b then dedupSorted (b :: r) else a :: dedupSorted (b :: r)
+
+def natSet (l : List Nat) : List Nat := dedupSorted (sortBy (· < ·) l)
+
+def pairLt (a b : Nat × Nat) : Bool := a.1 < b.1 || (a.1 == b.1 && a.2 < b.2)
+
+/-- `p:x:b1+b2` entries sorted by (path, blob); branch lists as sorted sets -/
+def showFiles (m : Files) : String :=
+  let ds := sortBy (fun a b => pairLt (a.path, a.blob) (b.path, b.blob)) m
+  showList (fun d => s!"{d.path}:{d.blob}:{"+".intercalate ((natSet d.branches).map toString)}") ds
+
+def showPairs (v : List (Path × Blob)) : String :=
+  showList (fun e => s!"{e.1}:{e.2}") (sortBy pairLt v)
+
+structure St where
+  repo : Repo
+  idx : Index
+  igp : Path                       -- path id of `.sourcegraph/ignore`
+  tbl : List (Blob × List Path)    -- ignore-file blob ↦ the paths it excludes (computed by the real matcher)
+
+def St.init (igp : Path) : St := ⟨[], Index.empty, igp, []⟩
+
+/-- the ignore matcher of a tree: looked up by the blob of its ignore file; no file, no exclusions -/
+def St.ignore (st : St) : Ignore :=
+  ⟨st.igp, fun t p =>
+    match fget t st.igp with
+    | some e => ((st.tbl.lookup e.blob).getD []).contains p
+    | none => false⟩
+
+/--
+ops (one history per `reset`):
+  reset <ignore path id>
+  igdef <blob> <paths>               the ignore file with this blob excludes these paths
+  commit <b> <tree>
+  index <delta 0|1> <thr> <brs> <cuts> impl/model: `delta|full files=… changed=… shards=<n>`
+  view <b>                           impl: (path:blob) pairs the real branch-restricted search returned;
+                                     model: its own view; verdict: `checkView` of the implementation's view
+-/
+def stepLine (st : St) (line : String) : St × String :=
+  let (inp, impl) := splitCase line
+  match fields inp with
+  | ["reset", igp] =>
+    match igp.toNat? with
+    | some igp => (St.init igp, answer "ok")
+    | none => (st, badCase "reset fields")
+  | ["igdef", x, ps] =>
+    match x.toNat?, natList? ps with
+    | some x, some ps => ({ st with tbl := (x, ps) :: st.tbl }, answer "ok")
+    | _, _ => (st, badCase "igdef fields")
+  | ["commit", b, t] =>
+    match b.toNat?, parseTree t with
+    | some b, some t => ({ st with repo := (b, t) :: st.repo }, answer "ok")
+    | _, _ => (st, badCase "commit fields")
+  | ["index", d, thr, brs, cuts] =>
+    match bool? d, thr.toNat?, natList? brs, natList? cuts with
+    | some d, some thr, some brs, some cuts =>
+      let I := st.ignore
+      let isDelta := d && deltaOk st.idx thr brs && !mixedChange diffTrees st.idx.snap st.repo st.idx.brs &&
+        !ignoreBlocksDelta I diffTrees st.idx.snap st.repo st.idx.brs
+      -- `cuts`: the document counts of the shards the real run wrote (all but the last)
+      let idx' := indexRunS I diffTrees st.idx st.repo d thr brs cuts
+      let out :=
+        if isDelta then
+          let res := prepareDelta diffTrees st.idx.snap st.repo st.idx.brs
+          s!"delta files={showFiles res.1} changed={showNatList (natSet res.2)} shards={idx'.shards.length}"
+        else
+          s!"full files={showFiles (collect I st.repo brs)} changed=- shards={idx'.shards.length}"
+      ({ st with idx := idx' }, answer out)
+    | _, _, _, _ => (st, badCase "index fields")
+  | ["view", b] =>
+    match b.toNat?, parsePairs impl with
+    | some b, some iv =>
+      let mv := showPairs (st.idx.view b)
+      let t := head st.repo b
+      if checkView t (st.ignore.ig t) iv then (st, answer mv) else (st, specFail mv "view-ne-head")
+    | _, _ => (st, badCase "view fields")
+  | _ => (st, badCase "op")
+
+def main : IO Unit := runState (St.init 0) stepLine
 end ZoektModel.C13
